@@ -19,11 +19,11 @@ func c07Opts() (o specOpts, msg verif.Opts) {
 		o = specOpts{actionMode: 0, noNilBranches: true, branches: 1, patMode: 0, fixedErr: true, pooled: true, small: true, targetVars: true}
 	case 0:
 		// every action outcome (including "no execution, no error") x error settings x branching
-		o = specOpts{actionMode: 2, branches: 1, patMode: 0, fixedTarget: true, actKinds: kindsAll, pooled: true, small: true}
+		o = specOpts{actionMode: 2, branches: 1, patMode: 0, fixedTarget: true, actKinds: kindsC07, pooled: true, small: true}
 	default:
 		// guards with every outcome, invalid and valid patterns, optional action
 		o = specOpts{actionMode: 1, noNilBranches: true, branches: 1, patMode: 1, withGuards: true, withInvalid: true, fixedErr: true,
-			actKinds: []int{aSet, aFail, aNilExe}, grdKinds: kindsAll, pooled: true, small: true}
+			actKinds: []int{aSet, aFail, aNilExe}, grdKinds: kindsC07, pooled: true, small: true}
 		if verif.Tier() > 0 {
 			o.branches = 2
 			o.fixedErr = false
@@ -166,6 +166,36 @@ func VerifC07Walk() {
 		verif.Assert("failure-surfaced", surfaced)
 	}
 	verif.Reach("end")
+}
+
+// VerifC07Limits: control settings that allow no step at all (a limit of zero, or a nonsensical negative
+// one): Walk returns normally, takes no step and hands every message back.
+func VerifC07Limits() {
+	verif.MapOrderInsertion(true)
+	o := specOpts{actionMode: 1, branches: 1, patMode: 0, fixedTarget: true, fixedErr: true, actKinds: []int{aIdent, aFail}, pooled: true, small: true}
+	b := buildSpec(o)
+	st := &State{NodeName: "n0", Bs: match.Bindings{"k": "v"}}
+	var msgs []interface{}
+	nm := verif.Choose("nmsgs", 3)
+	for i := 0; i < nm; i++ {
+		msgs = append(msgs, map[string]interface{}{"a": float64(i)})
+	}
+	limit := []int{0, -1, -1000000}[verif.Choose("limit", 3)]
+	var w *Walked
+	var err error
+	panicked := true
+	func() {
+		defer func() { recover() }()
+		w, err = b.spec.Walk(context.Background(), st, msgs, &Control{Limit: limit}, nil)
+		panicked = false
+	}()
+	verif.Assert("walk-does-not-panic", !panicked)
+	verif.Assert("walk-returns-result-or-error", w != nil || err != nil)
+	if w != nil {
+		verif.Assert("no-step-without-allowance", len(w.Strides) == 0)
+		verif.Assert("messages-handed-back", len(w.Remaining) == len(msgs))
+	}
+	verif.Reach("limits-done")
 }
 
 // VerifC07Step: one Step is total for the same inputs, including without control settings.
